@@ -2028,6 +2028,7 @@ class latest(Stream):
         self._condition = None
         self.next = []
         self.next_metadata = None
+        self._fresh = False
 
         kwargs["ensure_io_loop"] = True
         Stream.__init__(self, upstream, **kwargs)
@@ -2047,14 +2048,25 @@ class latest(Stream):
 
         self.next = [x]
         self.next_metadata = metadata
+        self._fresh = True
         self.loop.add_callback(self.condition.notify)
 
     @gen.coroutine
     def cb(self):
         while True:
-            yield self.condition.wait()
+            # a notification may be stale (its element already forwarded) or may have been
+            # sent while we were busy: the flag, not the notification, says what is pending
+            while not self._fresh:
+                yield self.condition.wait()
+            self._fresh = False
             [x] = self.next
-            yield self._emit(x, self.next_metadata)
+            metadata = self.next_metadata
+            # the element stays referenced while downstream handles it, even if superseded meanwhile
+            if metadata:
+                self._retain_refs(metadata)
+            yield self._emit(x, metadata)
+            if metadata:
+                self._release_refs(metadata)
 
 
 def sync(loop, func, *args, **kwargs):
